@@ -50,10 +50,12 @@ _ENUM = _enum()
 
 def _pieces(st, step_by_id):
     """The pieces as the (possibly shrunk) steps actually carry them."""
-    out = [bytes.fromhex(step_by_id[u]["args"][0]["b"]) for u in st["upd"]]
+    def content(t):
+        return bytes.fromhex(t["piece_hex"] if "piece_hex" in t else t["args"][0]["b"])
+    out = [content(step_by_id[u]) for u in st["upd"]]
     f = step_by_id[st["fin"]]
     if f.get("args"):
-        out.append(bytes.fromhex(f["args"][0]["b"]))
+        out.append(content(f))
     return out
 
 
@@ -86,12 +88,12 @@ class C14(Machine):
             cuts.sort()
             total = n * bb + tail
         else:
-            n = rng.choice([0, 1, 1, 2, 2, 3, 4, 6])
+            n = rng.choice([0, 1, 1, 2, 2, 3, 4, 6, 9, 13])
             tail = rng.choice(tails(bb, w) + [rng.randrange(bb), 0])
             if rng.random() < 0.15:
                 tail += bb * rng.randint(1, 2)          # final piece spanning several blocks
             total = n * bb + tail
-            k = rng.choice([0, 1, 1, 2, 2, 3, 4, 5])
+            k = rng.choice([0, 1, 1, 2, 2, 3, 4, 5, 8, 11])
             cuts = sorted(rng.randint(0, n) * bb for _ in range(k))
         M = rbytes(rng, total) if rng.random() < 0.8 else bytes(total)
         if warm:
@@ -116,17 +118,29 @@ class C14(Machine):
         ini = pb.step(c, k="call", obj=o, name="initstate", args=[], kw={}, tag="init", kind=name, role="init")
         pos = 0
         st = {"obj": o, "kind": name, "pieces": [], "upd": [], "fin": None, "recipe": recipe, "c": c, "init": ini}
+        # one stream in seven reads its pieces through ONE reused bytearray (readinto-style loop)
+        buf = pb.obj({"kind": "value", "val": {"ba": ""}}) if (enum is None and rng.random() < 0.15) else None
+        if buf is not None:
+            st["buf"] = buf
+
+        def arg(piece):
+            if buf is None:
+                return [B(piece)], {}
+            pb.step(c, k="mutate", obj=buf, val=B(piece), tag="buf", kind=name, role="mut")
+            return [{"obj": buf}], {"piece_hex": piece.hex()}
         for cut in cuts:
             piece = M[pos:cut]
-            sid = pb.step(c, k="call", obj=o, name="update", args=[B(piece)], kw={},
+            a_, ex_ = arg(piece)
+            sid = pb.step(c, k="call", obj=o, name="update", args=a_, kw={}, **ex_,
                           tag="upd0" if not piece else ("upd%d" % min(3, len(piece) // bb)), kind=name, role="upd")
             st["upd"].append(sid)
             st["pieces"].append(piece.hex())
             pos = cut
         last = M[pos:]
         ftag = "fin0" if not last else ("fin_part" if len(last) < bb else "fin_multi")
-        st["fin"] = pb.step(c, k="call", obj=o, name="update", args=[B(last)], kw={"padding": True}, tag=ftag,
-                            kind=name, role="fin")
+        a_, ex_ = arg(last)
+        st["fin"] = pb.step(c, k="call", obj=o, name="update", args=a_, kw={"padding": True}, tag=ftag,
+                            kind=name, role="fin", **ex_)
         st["pieces"].append(last.hex())
         streams.append(st)
         pb.plan["observe"].append([o, "padmethod.bitcnt"])
@@ -245,6 +259,18 @@ class C14(Machine):
         for st in plan["meta"].get("streams", []):
             if st["fin"] not in by_id or st.get("init", st["fin"]) not in by_id:
                 continue        # the stream was removed by the shrinker
+            if "buf" in st:
+                # buffered stream: every update must still be preceded by its own buffer refill
+                ok_buf = True
+                steps_ = plan["steps"]
+                for i_, t_ in enumerate(steps_):
+                    if t_["id"] in st["upd"] + [st["fin"]] and "piece_hex" in t_:
+                        prev = [q for q in steps_[:i_] if q.get("obj") == st["buf"] and q.get("k") == "mutate"]
+                        if not prev or prev[-1]["val"]["b"] != t_["piece_hex"]:
+                            ok_buf = False
+                if not ok_buf:
+                    continue
+                probe("stream_through_one_reused_bytearray")
             # non-final pieces may be dropped by the shrinker: the stream is what is left of it
             st = dict(st, upd=[u for u in st["upd"] if u in by_id])
             kind = st["kind"]
